@@ -89,6 +89,10 @@ def cases(rng, tier, feats, drv_ok):
             for x in vals:
                 if x < lim:
                     add(b, PL.setp(b.v, i, path, x), 'numeric', f'{PL.TOK[i]}{list(path)}={x if x < 1 << 20 else hex(x)}')
+            cur = PL.get(b.v[i], path)   # aliases of the honest value modulo a machine word
+            for w in ((32, 64, 128) if tier == 'thorough' or not path else (rng.choice((32, 64, 128)),)):
+                if cur + (1 << w) < lim:
+                    add(b, PL.setp(b.v, i, path, cur + (1 << w)), 'numeric', f'{PL.TOK[i]}{list(path)}=cur+2^{w}')
         # consistent re-declarations reaching deep into the pipeline
         for t in ([1, 2, 3, 4, 5, 8, 12] if tier == 'quick' else list(range(1, 20))):
             v = redeclared(b, t)
